@@ -98,3 +98,124 @@ def _lemmas(ctx):
 
 
 LEMMAS = [_lemmas]
+
+
+# ---------------------------------------------------------------------------------------------- thermal CX, TRP, brems
+def register_more(reg):
+    T = D + "thermal_cx.pyx"
+    dens = lambda o: "%s.distribution.density(point.x, point.y, point.z)" % o
+    temp = lambda o: "%s.distribution.effective_temperature(point.x, point.y, point.z)" % o
+    reg.contract(T, "ThermalCXLine.emission", PROP, sorts=PT,
+        attrs={"_rates": "seq:ref"},
+        ghost=dict(EL, **{
+            "sp(j)": "typed(as_seq(self._rates[j])[0], 'Species')",
+            "rt(j)": "typed(as_seq(self._rates[j])[1], 'ThermalCXPEC')",
+            "dterm(j)": dens("sp(j)") + " * rt(j).evaluate(ne(), te(), " + temp("sp(j)") + ")"}),
+        consts={"wsum": "fn:int->real"},
+        axioms=["wsum(0) == 0", "forall(j, j >= 0, wsum(j + 1) == wsum(j) + dterm(j))"],
+        requires=SPECTRUM_OK + ["not is_none(self._plasma)", "not is_none(self._target_species)", "not is_none(self._rates)",
+                                "not is_none(self._lineshape)"],
+        loops={0: dict(index='k', invariant=["weighted_rate == wsum(k)", "0 <= k"])},
+        ensures=[
+            ("calls", call_cases(['add_line'], [
+                ("ne() <= 0 or te() <= 0 or ni() <= 0", []),
+                ("ne() > 0 and te() > 0 and ni() > 0",
+                 [('add_line', ["RECIP_4_PI * wsum(length(self._rates)) * ni()", "point", "direction", "spectrum"])])])),
+            ("identity_when_dark", "implies(ne() <= 0 or te() <= 0 or ni() <= 0, same(result, spectrum))"),
+            ("spectrum_untouched_here", "unchanged('$d1:real')")],
+        note='wsum(n) is by its defining axioms the documented sum over the eligible donors of n_d * PEC_d(ne, te, T_d)')
+
+    P = D + "total_radiated_power.pyx"
+    reg.contract(P, "TotalRadiatedPower.emission", PROP, sorts=PT,
+        attrs={"_hydrogen_species": "seq:ref"},
+        ghost={"ne()": EL["ne()"], "te()": EL["te()"],
+               "ni()": dens("self._line_rad_species"), "nu()": dens("self._recom_species"),
+               "hy(j)": dens("typed(self._hydrogen_species[j], 'Species')"),
+               "nh()": "hsum(length(self._hydrogen_species))",
+               "S(k)": "spectrum.samples_mv[k]",
+               "exc()": "ite(not is_none(self._plt_rate) and ni() > 0, self._plt_rate.evaluate(ne(), te()) * ne() * ni(), 0)",
+               "rec()": "ite(not is_none(self._prb_rate) and nu() > 0, self._prb_rate.evaluate(ne(), te()) * ne() * nu(), 0)",
+               "cx()": "ite(not is_none(self._prc_rate) and nu() > 0 and nh() > 0, self._prc_rate.evaluate(ne(), te()) * nh() * nu(), 0)",
+               "rad()": "RECIP_4_PI * (exc() + rec() + cx()) / (spectrum.max_wavelength - spectrum.min_wavelength)"},
+        consts={"hsum": "fn:int->real"},
+        axioms=["hsum(0) == 0", "forall(j, j >= 0, hsum(j + 1) == hsum(j) + hy(j))"],
+        requires=SPECTRUM_OK + ["not is_none(self._plasma)", "self._cache_loaded", "not is_none(self._line_rad_species)",
+                                "not is_none(self._recom_species)", "not is_none(self._hydrogen_species)",
+                                "spectrum.max_wavelength > spectrum.min_wavelength"],
+        loops={0: dict(index='k', invariant=["nhyd == hsum(k)", "0 <= k"]),
+               1: dict(invariant=["0 <= i", "forall(k, 0 <= k and k < i, S(k) == old(S(k)) + radiance)",
+                                  "forall(k, not (0 <= k and k < i), S(k) == old(S(k)))",
+                                  "unchanged_except('$d1:real', spectrum.samples_mv)"])},
+        ensures=[("identity", "same(result, spectrum)"),
+                 ("dark", "implies(ne() <= 0 or te() <= 0, unchanged('$d1:real'))"),
+                 ("uniform", "implies(ne() > 0 and te() > 0, forall(k, 0 <= k and k < spectrum.bins, S(k) == old(S(k)) + rad()))"),
+                 ("frame", "unchanged_except('$d1:real', spectrum.samples_mv)")],
+        modifies=["$d1:real"])
+
+    B = D + "bremsstrahlung.pyx"
+    reg.contract(B, "BremsFunction.evaluate", PROP, sorts={"wvl": "real"},
+        ghost={"z(j)": "self.species_charge_mv[j]", "n(j)": "self.species_density_mv[j]",
+               "gterm(j)": "ite(n(j) > 0, n(j) * self.gaunt_factor.evaluate(z(j), self.te, wvl) * z(j) * z(j), 0)"},
+        consts={"gsum": "fn:int->real"},
+        axioms=["gsum(0) == 0", "forall(j, j >= 0, gsum(j + 1) == gsum(j) + gterm(j))"],
+        requires=["not is_none(self.species_charge_mv)", "not is_none(self.species_density_mv)",
+                  "length(self.species_density_mv) == length(self.species_charge_mv)", "not is_none(self.gaunt_factor)"],
+        loops={0: dict(invariant=["0 <= i", "ni_gff_z2 == gsum(i)"])},
+        result='real',
+        ensures=[("hutchinson_5_3_40",
+                  "result == BREMS_CONST / (sqrt(self.te) * wvl * wvl) * self.ne * gsum(length(self.species_charge_mv)) "
+                  "* exp(- EXP_FACTOR / (self.te * wvl))")],
+        modifies=[])
+
+    reg.contract(B, "Bremsstrahlung.emission", PROP, sorts=PT, name='bins',
+        ghost={"ne()": EL["ne()"], "te()": EL["te()"], "S(k)": "spectrum.samples_mv[k]",
+               "edge(k)": "spectrum.min_wavelength + spectrum.delta_wavelength * k"},
+        requires=SPECTRUM_OK + ["not is_none(self._plasma)", "not is_none(self._brems_func)", "not is_none(self._integrator)",
+                                "not is_none(self._brems_func.species_charge)",
+                                "not is_none(self._brems_func.species_density_mv)",
+                                "not same(self._brems_func.species_density_mv, spectrum.samples_mv)",
+                                "same(self._integrator.function, self._brems_func)"],
+        externals={'Composition.__iter__': {'kind': 'pure', 'result': 'seq:ref', 'doc': 'iteration order of the composition'}},
+        loops={0: dict(index='k', invariant=["unchanged_except('$d1:real', self._brems_func.species_density_mv)", "0 <= i"],
+                       note='memory safety of species_density_mv[i] depends on the cache/composition coherence of C01'),
+               1: dict(invariant=["0 <= i", "lower_wavelength == edge(i)",
+                                  "forall(k, 0 <= k and k < i, S(k) == old(S(k)) + self._integrator.evaluate(edge(k), edge(k + 1)) / spectrum.delta_wavelength)",
+                                  "forall(k, not (0 <= k and k < i), S(k) == old(S(k)))",
+                                  "self._brems_func.ne == ne() and self._brems_func.te == te()",
+                                  "same(self._integrator.function, self._brems_func)"])},
+        flags={'skip_bounds': ['self._brems_func.species_density_mv']},
+        ensures=[("identity", "same(result, spectrum)"),
+                 ("dark", "implies(ne() <= 0 or te() <= 0, forall(k, S(k) == old(S(k))))"),
+                 ("bin_average", "implies(ne() > 0 and te() > 0, forall(k, 0 <= k and k < spectrum.bins, "
+                  "S(k) == old(S(k)) + self._integrator.evaluate(edge(k), edge(k + 1)) / spectrum.delta_wavelength))"),
+                 ("integrand_state", "implies(ne() > 0 and te() > 0, self._brems_func.ne == ne() and self._brems_func.te == te() "
+                  "and same(self._integrator.function, self._brems_func))")])
+
+
+_register0 = register
+
+
+def register(reg):
+    _register0(reg)
+    register_more(reg)
+
+
+def _constants(ctx, eng):
+    """Closed constants: evaluated from the module's own initialiser statements (no inputs: evaluation is the proof)."""
+    import math
+    from .common import structural
+    t = ctx['tree']
+    e, eps0, me, c, h = 1.602176634e-19, 8.8541878128e-12, 9.1093837015e-31, 299792458.0, 6.62607015e-34
+    want_b = (e ** 2 / (4 * math.pi * eps0)) ** 3 * 32 * math.pi ** 2 / (3 * math.sqrt(3) * me ** 2 * c ** 3) \
+        * math.sqrt(2 * me / (math.pi * e)) * c * 1e9 / (4 * math.pi)
+    out = []
+    for name, file, want in (("RECIP_4_PI", "cherab/core/utility/constants.pyx", 1 / (4 * math.pi)),
+                             ("BREMS_CONST", "cherab/core/model/plasma/bremsstrahlung.pyx", want_b),
+                             ("EXP_FACTOR", "cherab/core/model/plasma/bremsstrahlung.pyx", h * c * 1e9 / e)):
+        got = t.eval_const(file, name)
+        ok = abs(got - want) <= 1e-6 * abs(want)
+        out.append(structural('constants/%s' % name, PROP, ok, '%s = %r, documented value %r (rel. tol 1e-6, CODATA 2018)' % (name, got, want)))
+    return out
+
+
+GENERATORS = [_constants]
